@@ -50,10 +50,14 @@ enum Cmd {
     Sign { keys: Vec<usize>, ignore: bool, cross: bool },
     /// harness action: remember the current file as "old root" for later --cross-sign
     SaveForCross,
+    /// the wrapped subcommand runs with a file-size limit of 512 bytes (RLIMIT_FSIZE, SIGXFSZ ignored):
+    /// whatever it writes beyond that fails with EFBIG - a disk-full-like fault in the middle of the write
+    Faulted(Box<Cmd>),
 }
 
 fn kind(c: &Cmd) -> &'static str {
     match c {
+        Cmd::Faulted(inner) => kind(inner),
         Cmd::Init(_) => "init",
         Cmd::AddKey { .. } => "add-key",
         Cmd::RemoveKey { .. } => "remove-key",
@@ -73,7 +77,10 @@ fn kind(c: &Cmd) -> &'static str {
 /// --ignore-threshold in between, for every kind of key file.
 const TEMPLATES_A: u64 = 96;
 const EDITS_AFTER_SIGN: u64 = 11;
-const TEMPLATES: u64 = TEMPLATES_A + 4 * EDITS_AFTER_SIGN;
+const TEMPLATES_B: u64 = TEMPLATES_A + 4 * EDITS_AFTER_SIGN;
+/// third family: the same edits, first under a write fault (must fail and leave the file as it was),
+/// then for real
+const TEMPLATES: u64 = TEMPLATES_B + 2 * EDITS_AFTER_SIGN;
 
 /// Second family: a root that is completely signed, then ONE content-changing subcommand of every
 /// kind (including those that change the signed content without changing the key table: an already
@@ -112,8 +119,18 @@ fn template_edit_after_sign(j: u64) -> Vec<Cmd> {
 fn template(i: u64) -> Option<Vec<Cmd>> {
     let nk = KEYS.len() as u64; // 4 key files
     let shapes = 6u64;
-    if i >= TEMPLATES_A && i < TEMPLATES {
+    if i >= TEMPLATES_A && i < TEMPLATES_B {
         return Some(template_edit_after_sign(i - TEMPLATES_A));
+    }
+    if i >= TEMPLATES_B && i < TEMPLATES {
+        // j = kind of edit * 4 + key file (key files 0 and 2 only)
+        let j = i - TEMPLATES_B;
+        let mut v = template_edit_after_sign((j / 2) * 4 + (j % 2) * 2);
+        let n = v.len();
+        let edit = v[n - 2].clone();
+        v.insert(n - 2, Cmd::Faulted(Box::new(edit)));
+        v.push(Cmd::Faulted(Box::new(Cmd::Sign { keys: vec![((j % 2) * 2) as usize], ignore: false, cross: false })));
+        return Some(v);
     }
     if i >= nk * nk * shapes {
         return None;
@@ -233,6 +250,8 @@ fn gen_seq(r: &mut Rng) -> Vec<Cmd> {
                 Cmd::Sign { keys, ignore: r.chance(1, 5), cross: r.chance(1, 6) }
             }
         };
+        // one command in eight runs under a write fault
+        let c = if r.chance(1, 8) && !matches!(c, Cmd::SaveForCross | Cmd::Init(_)) { Cmd::Faulted(Box::new(c)) } else { c };
         v.push(c);
     }
     v
@@ -299,6 +318,10 @@ fn run_case(w: &mut Worker, i: u64) -> CaseOut {
             }
             continue;
         }
+        let (c, faulted) = match c {
+            Cmd::Faulted(inner) => (&**inner, true),
+            other => (other, false),
+        };
         let before = std::fs::read(&root).ok();
         let before_j = before.as_ref().and_then(|b| J::parse(b).ok());
         let mut cmd = Command::new(TUFTOOL);
@@ -352,9 +375,15 @@ fn run_case(w: &mut Worker, i: u64) -> CaseOut {
                     this_cross = true;
                 }
             }
-            Cmd::SaveForCross => unreachable!(),
+            Cmd::SaveForCross | Cmd::Faulted(_) => unreachable!(),
         }
         // a set RUST_BACKTRACE makes every failing invocation symbolise a backtrace (~150 ms each)
+        if faulted {
+            let mut sh = Command::new("/bin/sh");
+            sh.arg("-c").arg("trap '' XFSZ; ulimit -f 1; exec \"$0\" \"$@\"").arg(cmd.get_program());
+            sh.args(cmd.get_args());
+            cmd = sh;
+        }
         cmd.env("RUST_BACKTRACE", "0").env("RUST_LIB_BACKTRACE", "0");
         let st = cmd.stdout(Stdio::null()).stderr(Stdio::null()).status();
         out.evals += 1;
@@ -363,6 +392,9 @@ fn run_case(w: &mut Worker, i: u64) -> CaseOut {
         let name = kind(c);
         kinds.push(name);
         out.h(format!("cmd={name}:{}", if ok { "exit0" } else { "failed" }));
+        if faulted {
+            out.h(format!("write-fault:{}", if ok { "command-succeeded-all-the-same" } else { "command-failed" }));
+        }
         let mut notes: Vec<String> = Vec::new();
         if !ok {
             // a failed command leaves the previous file intact (init may fail before any file exists)
@@ -457,6 +489,7 @@ pub fn run(cfg: &Cfg) -> i32 {
     required.push("cmd=sign --cross-sign:exit0".into());
     required.push("plain-sign-succeeded".into());
     required.push("content-changed".into());
+    required.push("write-fault:command-failed".into());
     finish(
         cfg,
         ev,
